@@ -682,3 +682,121 @@ Section Unique.
     induction ls as [|l ls IH]; cbn; [reflexivity|]. destruct (is_error (P l)); cbn; rewrite IH; reflexivity.
   Qed.
 End Unique.
+
+(* ================================================================ whole files *)
+Definition nl : ascii := ascii_of_N 10.
+
+(* the text of a file whose lines are ls, each ended by a newline *)
+Fixpoint unlines (ls : list string) : string :=
+  match ls with [] => "" | l :: r => l ++ String nl (unlines r) end.
+
+Lemma not_nl_is_nl c : not_nl c = negb (is_nl c).
+Proof. reflexivity. Qed.
+
+Lemma raw_lines_line l r : no_nl l -> raw_lines (l ++ String nl r) = l :: raw_lines r.
+Proof.
+  induction l as [|c l IH]; intros NL.
+  - reflexivity.
+  - unfold no_nl in NL. cbn in NL. apply andb_prop in NL as [Hc NL]. rewrite not_nl_is_nl in Hc.
+    cbn [append raw_lines]. destruct (is_nl c); [discriminate|]. rewrite (IH NL). reflexivity.
+Qed.
+
+Lemma raw_lines_last l : no_nl l -> l <> "" -> raw_lines l = [l].
+Proof.
+  induction l as [|c l IH]; intros NL NE; [contradiction|].
+  unfold no_nl in NL. cbn in NL. apply andb_prop in NL as [Hc NL]. rewrite not_nl_is_nl in Hc.
+  cbn [raw_lines]. destruct (is_nl c); [discriminate|].
+  destruct l as [|c' l']; [reflexivity|]. rewrite (IH NL) by discriminate. reflexivity.
+Qed.
+
+(* one line per physical line, in order; an unterminated last line is a line *)
+Theorem raw_lines_unlines ls last :
+  (forall l, In l ls -> no_nl l) -> no_nl last ->
+  raw_lines (unlines ls ++ last) = (ls ++ (if last =? "" then [] else [last]))%list.
+Proof.
+  intros NL NLl. induction ls as [|l ls IH].
+  - cbn [unlines append app]. destruct (String.eqb_spec last "") as [->|NE]; [reflexivity|].
+    apply raw_lines_last; assumption.
+  - cbn [unlines]. rewrite app_assoc_s. cbn [append].
+    rewrite raw_lines_line by (apply NL; left; reflexivity).
+    rewrite IH by (intros x Hx; apply NL; right; exact Hx). reflexivity.
+Qed.
+
+Lemma scan_ok_short ls :
+  (forall l, In l ls -> (lenN l < max_token)%N) -> scan_ok ls = (map drop_cr ls, false).
+Proof.
+  induction ls as [|l ls IH]; intros H; [reflexivity|]. cbn [scan_ok map].
+  destruct (N.leb_spec max_token (lenN l)) as [C|_].
+  - specialize (H l (or_introl eq_refl)). lia.
+  - rewrite IH by (intros x Hx; apply H; right; exact Hx). reflexivity.
+Qed.
+
+Lemma scan_ok_long a l b :
+  (forall x, In x a -> (lenN x < max_token)%N) -> (max_token <= lenN l)%N ->
+  scan_ok (a ++ l :: b)%list = (map drop_cr a, true).
+Proof.
+  induction a as [|x a IH]; intros H L; cbn [app scan_ok map].
+  - destruct (N.leb_spec max_token (lenN l)) as [_|C]; [reflexivity|lia].
+  - destruct (N.leb_spec max_token (lenN x)) as [C|_].
+    + specialize (H x (or_introl eq_refl)). lia.
+    + rewrite IH by (try exact L; intros y Hy; apply H; right; exact Hy). reflexivity.
+Qed.
+
+Lemma no_nl_drop_cr l : no_nl l -> no_nl (drop_cr l).
+Proof.
+  unfold no_nl. induction l as [|c l IH]; intros H; [reflexivity|].
+  cbn in H. apply andb_prop in H as [Hc H]. cbn [drop_cr]. destruct l as [|c' l'].
+  - destruct (is_cr c); cbn; [reflexivity|rewrite Hc; reflexivity].
+  - cbn [allb]. rewrite Hc. exact (IH H).
+Qed.
+
+Section Files.
+  Variable parse_dur : string -> option Z.
+  Variable regex_ok : string -> bool.
+  Variable atoi : string -> option Z.
+  Notation P := (parse_line parse_dur regex_ok atoi).
+
+  Definition phys (ls : list string) (last : string) : list string :=
+    (ls ++ (if last =? "" then [] else [last]))%list.
+
+  (* every physical line of the file (LF or CRLF ended, or the unterminated last one) gives
+     exactly one item, ParseLine of that line, in order *)
+  Theorem load_text_items ls last :
+    (forall l, In l ls -> no_nl l) -> no_nl last ->
+    (forall l, In l (phys ls last) -> (lenN l < max_token)%N) ->
+    load_text parse_dur regex_ok atoi (unlines ls ++ last) =
+      (map (fun l => P (drop_cr l)) (phys ls last), false).
+  Proof.
+    intros NL NLl Sh. unfold load_text, file_lines. rewrite (raw_lines_unlines _ _ NL NLl).
+    fold (phys ls last). rewrite (scan_ok_short _ Sh). unfold parse_file. rewrite map_map. reflexivity.
+  Qed.
+
+  (* a line of 64 KiB or more: the items of the lines before it, and the load fails *)
+  Theorem load_text_too_long ls last a l b :
+    (forall x, In x ls -> no_nl x) -> no_nl last -> phys ls last = (a ++ l :: b)%list ->
+    (forall x, In x a -> (lenN x < max_token)%N) -> (max_token <= lenN l)%N ->
+    load_text parse_dur regex_ok atoi (unlines ls ++ last) = (map (fun x => P (drop_cr x)) a, true).
+  Proof.
+    intros NL NLl E Sh L. unfold load_text, file_lines. rewrite (raw_lines_unlines _ _ NL NLl).
+    fold (phys ls last). rewrite E, (scan_ok_long _ _ _ Sh L). unfold parse_file. rewrite map_map. reflexivity.
+  Qed.
+
+  (* checking a loaded file reports an error precisely when some physical line is malformed *)
+  Theorem file_check_iff_malformed ls last :
+    (forall l, In l ls -> no_nl l) -> no_nl last ->
+    (forall l, In l (phys ls last) -> (lenN l < max_token)%N) ->
+    (check_fails (fst (load_text parse_dur regex_ok atoi (unlines ls ++ last))) = true <->
+     exists l, In l (phys ls last) /\ malformed parse_dur regex_ok atoi (drop_cr l)).
+  Proof.
+    intros NL NLl Sh. rewrite (load_text_items _ _ NL NLl Sh). cbn [fst].
+    rewrite <- (map_map drop_cr P). change (map P (map drop_cr (phys ls last))) with
+      (parse_file parse_dur regex_ok atoi (map drop_cr (phys ls last))).
+    rewrite check_iff_malformed.
+    - split.
+      + intros (x & Hx & B). apply in_map_iff in Hx as (l & <- & Hl). exists l. split; assumption.
+      + intros (l & Hl & B). exists (drop_cr l). split; [apply in_map; exact Hl|exact B].
+    - intros x Hx. apply in_map_iff in Hx as (l & <- & Hl). apply no_nl_drop_cr.
+      unfold phys in Hl. apply in_app_or in Hl as [Hl|Hl]; [apply NL; exact Hl|].
+      destruct (last =? ""); [destruct Hl|]. destruct Hl as [<-|[]]. exact NLl.
+  Qed.
+End Files.
